@@ -307,11 +307,11 @@ def gen_ne_coupled(seed):
     return out
 
 
-def check_ne_coupled(spec, res, stats, npts):
+def check_ne_coupled(spec, res, stats, npts, prop='C14'):
     """a `!=` line together with a non-strict bound on the same pair of variables (the parser makes the bound's solver
     step off the forbidden value): every line must hold at constraint(x) and the penalty of the same text must be 0"""
     import mystic.symbolic as ms
-    key = 'C14/bounded/ne-coupled/'
+    key = prop + '/bounded/ne-coupled/'
     text, nv = spec['text'], spec['nv']
     rng = random.Random('nepts|%s|%d' % (text, spec['seed']))
     try:
